@@ -16,6 +16,7 @@ from mc.runner import Result
 
 PROPERTY = "C07"
 LEVEL = "model_checking"
+TECHNIQUE = "bounded exhaustive enumeration of bin-edge values and multi-grouper label tuples against pandas.cut / tuple-key model"
 ENGINE = "E1"
 RULE = (
     "state (bins) = (edge set, edges|IntervalIndex(closed), label-value tuple over the 10-letter alphabet, eager | chunking "
